@@ -321,20 +321,20 @@ Definition open_literal (qt : drune) (inp : list drune) (t : terminal) : pres te
   end.
 
 (* captureOpenBlankNode: underscore and colon already read *)
-Fixpoint bnode_rest (inp : list drune) (acc : list drune) : res (list drune) :=
+Fixpoint bnode_rest (inp : list drune) (acc : list drune) (t : terminal) : res (list drune) :=
   match inp with
-  | [] => Eof
+  | [] => match t with TEof => Ok (rev acc) [] [] | TFail => Eof end    (* the label may end with the input *)
   | r0 :: rest =>
-      if pn_chars_nt (fst r0) || N.eqb (fst r0) 46 then bnode_rest rest (r0 :: acc)
+      if pn_chars_nt (fst r0) || N.eqb (fst r0) 46 then bnode_rest rest (r0 :: acc) t
       else Ok (rev acc) [] inp
   end.
 
-Definition open_bnode (us colon : drune) (inp : list drune) : pres term :=
+Definition open_bnode (us colon : drune) (inp : list drune) (t : terminal) : pres term :=
   match inp with
   | [] => PEof
   | r0 :: rest =>
       if pn_chars_u_nt (fst r0) || is_digit (fst r0) then
-        match bnode_rest rest [r0] with
+        match bnode_rest rest [r0] t with
         | Ok lab _ rest1 =>
             (* len(uncommitted) > 3 means more than one label rune *)
             match rev lab with
@@ -383,7 +383,7 @@ Fixpoint capture (fuel : nat) (k : pos_kind) (inp : list drune) (t : terminal) (
             | [] => Eof
             | r1 :: rest1 =>
                 if N.eqb (fst r1) 58 then
-                  match open_bnode r0 r1 rest1 with POk b ps rest' => Ok b (tr ++ [CTerm ps]) rest' | PEof => Eof | PBad => Bad end
+                  match open_bnode r0 r1 rest1 t with POk b ps rest' => Ok b (tr ++ [CTerm ps]) rest' | PEof => Eof | PBad => Bad end
                 else Bad
             end
           else if N.eqb c 34 && (match k with KObject => true | _ => false end) then
